@@ -82,10 +82,11 @@ func (n *Net) dial(addr string) (*SimConn, error) {
 	c := &SimConn{ID: n.nextID, RemoteAddress: addr, Tag: n.Tag}
 	c.cond = sync.NewCond(&c.mu)
 	n.Conns = append(n.Conns, c)
-	n.mu.Unlock()
 	if w := simrt.Cur(); w != nil {
+		// logged under the lock: concurrent dials (parallel replay workers) must appear in id order
 		w.Logf("dial c%d -> %s", c.ID, addr)
 	}
+	n.mu.Unlock()
 	a.Accept(c)
 	return c, nil
 }
